@@ -806,6 +806,15 @@ def p_mp_createInstance(p):
 
     try:
         instpath = p.parser.handle.CreateInstance(inst, namespace=ns)
+    except (ValueError, TypeError) as exc:
+        # e.g. a key property that is NULL or an array: the repository cannot
+        # build the instance path
+        raise MOFRepositoryError(
+            msg=_format(
+                "Cannot compile instance of {0!A} because its instance "
+                "path cannot be created from the instance: {1}",
+                inst.classname, exc),
+            parser_token=p)
     except CIMError as ce:
         if ce.status_code == CIM_ERR_ALREADY_EXISTS:
 
